@@ -64,15 +64,47 @@ let fmt_db (w : xkey wstate) (k : xkey keyrec) =
 (* Wallet.keys(): ORDER BY id, depth — the book is kept in id order *)
 let dump w = S.concat "," (List.map (fmt_db w) w.ws_keys)
 
+let wt_l = function Legacy -> "l" | P2shSegwit -> "p" | Segwit -> "s"
+let fmt_compact (w : xkey wstate) (k : xkey keyrec) =
+  S.concat "/" [
+    str_z k.k_id; str_z k.k_account; (match k.k_change with Some c -> str_z c | None -> "-"); str_z k.k_index;
+    str_z (BZ.add w.ws_cfg.w_root_depth (BZ.of_int (List.length k.k_path)));
+    bool_s k.k_used; wt_l k.k_wt; str_of_coq k.k_net ]
+
+(* the table after a command: rows not reported before in full, the others compact *)
+let seen : (S.t, unit) Hashtbl.t = Hashtbl.create 256
+let snapshot slot (w : xkey wstate) =
+  "~" ^ S.concat ";" (List.map (fun k ->
+      let key = slot ^ "#" ^ str_z k.k_id in
+      if Hashtbl.mem seen key then fmt_compact w k
+      else (Hashtbl.replace seen key (); fmt_db w k)) w.ws_keys)
+
+let obool = function "-" -> None | "1" -> Some true | _ -> Some false
+
+let bytes_of_str (s : S.t) : byte list = List.init (S.length s) (fun i -> zb (BZ.of_int (Char.code s.[i])))
+
+(* sentence token: words joined by _ , or hex:<utf-8>; optional +<hex password>; as UTF-8 bytes *)
+let sentence_of tok =
+  let (t, pw) = (match S.index_opt tok '+' with
+      | Some i -> (S.sub tok 0 i, bytes_of_hex (S.sub tok (i + 1) (S.length tok - i - 1)))
+      | None -> (tok, [])) in
+  let sent = if S.length t > 4 && S.sub t 0 4 = "hex:" then bytes_of_hex (S.sub t 4 (S.length t - 4))
+    else bytes_of_str (S.map (fun c -> if c = '_' then ' ' else c) t) in
+  (sent, pw)
+
 let pelem_of_tok t =
   let n = S.length t in
   if n > 0 && t.[n - 1] = 'h' then (z_of (S.sub t 0 (n - 1)), true) else (z_of t, false)
 
 let run toks =
   match toks with
-  | _ :: seedhex :: _words :: cmds ->
-      let seed = bytes_of_hex seedhex in
+  | _ :: seedhex :: words :: cmds ->
+      (* "-" = the seed is the BIP39 seed of sentence and password, computed by the model (the harness supplies
+         both in NFKD form in that case) *)
+      let seed = if seedhex = "-" then (let (sn, pw) = sentence_of words in spec_bip39_seed sn pw)
+        else bytes_of_hex seedhex in
       Hashtbl.reset memo;
+      Hashtbl.reset seen;
       let slots : (S.t, xkey wstate) Hashtbl.t = Hashtbl.create 4 in
       let out = ref [] in
       let emit s = out := s :: !out in
@@ -81,12 +113,12 @@ let run toks =
         let (w', r) = wallet_step w o in
         Hashtbl.replace slots slot w';
         (match r with
-         | Some ks -> emit (c ^ "=" ^ f w' ks)
-         | None -> emit (c ^ "=ERR")) in
+         | Some ks -> emit (c ^ "=" ^ f w' ks ^ snapshot slot w')
+         | None -> emit (c ^ "=ERR" ^ snapshot slot w')) in
       List.iter (fun cmd ->
           let f = S.split_on_char ':' cmd in
           let missing = (match f with
-              | "C" :: _ :: _ :: _ :: _ :: _ :: src :: _ -> not (Hashtbl.mem slots src)
+              | "C" :: _ :: _ :: _ :: _ :: _ :: src :: _ -> src <> "-" && not (Hashtbl.mem slots src)
               | "C" :: _ -> false
               | _ :: slot :: _ -> not (Hashtbl.mem slots slot)
               | _ -> false) in
@@ -101,13 +133,25 @@ let run toks =
                 let (ws', _) = wallet_step ws (OPublicMaster (Some acct, None, None)) in
                 Hashtbl.replace slots src ws';
                 wallet_from_account_key net wt acct seed priv in
+              let given = (match rest with _ :: _ :: g :: _ -> g | _ -> "") in
               let w = (match kind with
-                  | "seed" | "mnem" | "xprv" -> wallet_from_seed net wt acct seed
+                  | "seed" | "mnem" | "mnemk" | "mnems" | "xprv" | "wkey" | "xprvs" | "xprvk" ->
+                      wallet_from_seed net wt acct seed
                   | "xpub" | "xpubw" -> from_src false
                   | "axprv" -> from_src true
+                  | "xpubs" | "xpubk" -> wallet_from_account_key net wt acct seed false
+                  | "axprvs" | "axprvk" -> wallet_from_account_key net wt acct seed true
                   | _ -> failwith "kind") in
+              (* an extended key written by the harness must be the model's own serialization of the main key *)
+              let text_ok w = (match kind with
+                  | "xprvs" | "xprvk" | "xpubs" | "xpubk" | "axprvs" | "axprvk" ->
+                      (match List.filter (fun k -> k.k_path = []) w.ws_keys with
+                       | [mk] -> otext (key_wif mk) = given
+                       | _ -> false)
+                  | _ -> true) in
               (match w with
-               | Some w -> Hashtbl.replace slots slot w; emit "C=ok"
+               | Some w when text_ok w -> Hashtbl.replace slots slot w; emit ("C=ok" ^ snapshot slot w)
+               | Some _ -> emit "C=BADKEY"
                | None -> emit "C=ERR")
           | ["K"; slot; acct; chg; wt; net; n] ->
               apply slot "K" (ONewKeys (oz acct, z_of chg, wt_of wt, onet net, nat_of_int (int_of_string n))) fmt_keys
@@ -119,17 +163,30 @@ let run toks =
               let parts = S.split_on_char '.' spec in
               let (upath, full) = (match parts with
                   | "e" :: _ -> ([], false)
-                  | "r" :: r -> (List.map pelem_of_tok r, false)
+                  | "r" :: r | "s" :: r -> (List.map pelem_of_tok r, false)
                   | "f" :: "m" :: r -> (List.map pelem_of_tok r, true)
                   | _ -> failwith "path") in
               apply slot "P" (OKeysForPath (upath, full, oz acct, z_of chg, z_of idx, wt_of wt, onet net, S O)) fmt_keys
           | ["B"; slot; acct; chg; idx; wt; net; n] ->
               apply slot "B" (OKeysForPath ([], false, oz acct, z_of chg, z_of idx, wt_of wt, onet net,
                                             nat_of_int (int_of_string n))) fmt_keys
+          | ["S"; slot; gap; acct; chg; net] ->
+              apply slot "S" (OScan (nat_of_int (int_of_string gap), oz acct, oz chg, onet net)) (fun _ _ -> "ok")
           | ["U"; slot; j] ->
               apply slot "U" (OMarkUsed (nat_of_int (int_of_string j)))
                 (fun _ ks -> match ks with [k] -> str_z k.k_id | _ -> "?")
-          | ["R"; slot] -> apply slot "R" OReopen (fun _ _ -> "ok")
+          | ["R"; slot] | ["R"; slot; _] -> apply slot "R" OReopen (fun _ _ -> "ok")
+          | ["L"; slot; how; acct; chg; depth; used; wt; net] ->
+              let w = Hashtbl.find slots slot in
+              let rows = (match how with
+                  | "k" -> lib_keys_query w (oz acct) (oz chg) (oz depth) (obool used) (wt_of wt) (onet net)
+                  | "a" -> lib_keys_addresses w (oz acct) (oz chg) (oz depth) (obool used) (onet net)
+                  | "p" -> lib_keys_address_chain w BZ.zero (oz acct) (obool used) (onet net)
+                  | "c" -> lib_keys_address_chain w BZ.one (oz acct) (obool used) (onet net)
+                  | "l" -> lib_addresslist_rows w (oz acct) (oz chg) (oz depth) (obool used) (onet net)
+                  | _ -> failwith "how") in
+              let items = List.map (fun k -> if how = "l" then fst (addr_wif k) else str_z k.k_id) rows in
+              emit ("L=" ^ (if items = [] then "-" else S.concat ";" items))
           | ["M"; slot; acct; wt; net] ->
               apply slot "M" (OPublicMaster (oz acct, wt_of wt, onet net))
                 (fun w ks -> match ks with
@@ -165,6 +222,8 @@ let dispatch = function
            (match lib_path_expand [] false tpl None v with
             | Some p -> path_s "m" p ^ " " ^ str_of_coq enc
             | None -> "ERR"))
+  (* multisig cosigner wallets are probed against the independent oracle only (no key book model for them) *)
+  | "msrun" :: _ -> "PROBE"
   | _ -> "BADREQ"
 
 let () = main dispatch
